@@ -147,6 +147,8 @@ class LayoutExtractor:
         self.layouts: Dict[str, CodecLayout] = {}
         self.assumptions: List[str] = []
         self.size_problems: Dict[str, List[str]] = {}
+        self.enc_conv: Dict[str, Dict[str, str]] = {}    # class -> attribute -> encoder-side conversion expression
+        self.dec_conv: Dict[str, Dict[str, Tuple[str, str]]] = {}   # class -> ctor parameter -> (term, raw element term)
 
     def concrete_classes(self) -> List[ClassInfo]:
         """Codec classes that are instantiated (have a type constant or are PDV/Generic)."""
@@ -235,6 +237,17 @@ class LayoutExtractor:
                     tl = elt.func if isinstance(elt, ast.Call) and not elt.args else elt
                     if attr_chain(tl) == (gen.target.id, 'total_length'):
                         return Affine.sym(('sum', src[1]))
+        # accumulation loop folded by the provenance client: AUG_x(0, 'Add', ITEM(self.items).total_length())
+        if isinstance(e, ast.Call) and isinstance(e.func, ast.Name) and e.func.id.startswith('AUG_') and len(e.args) == 3 \
+                and isinstance(e.args[1], ast.Constant) and e.args[1].value == 'Add':
+            init = self.aff_enc(e.args[0], c, locs, depth + 1)
+            elt = e.args[2]
+            tl = elt.func if isinstance(elt, ast.Call) and not elt.args else elt
+            if isinstance(tl, ast.Attribute) and tl.attr == 'total_length' and isinstance(tl.value, ast.Call) \
+                    and isinstance(tl.value.func, ast.Name) and tl.value.func.id == 'ITEM' and len(tl.value.args) == 1:
+                src = attr_chain(tl.value.args[0])
+                if src and len(src) == 2 and src[0] == 'self':
+                    return init + Affine.sym(('sum', src[1]))
         if isinstance(e, ast.Call) and not e.args and isinstance(e.func, ast.Attribute) and e.func.attr == 'total_length':
             ch = attr_chain(e.func.value)
             if ch and len(ch) == 2 and ch[0] == 'self':
@@ -246,8 +259,8 @@ class LayoutExtractor:
             name = ch[1]
             m = c.find_method(name)
             if m is not None and m.kind == 'property':
-                ret = _single_return(m)
-                return self.aff_enc(ret, m.cls, {}, depth + 1)
+                ret = self.return_expr(m)
+                return self.aff_enc(ret, c, {}, depth + 1)    # ``self`` is an instance of c, whichever class defines the property
             hit = c.find_attr(name)
             if hit is not None:
                 v = self.repo.try_fold(hit[1], hit[0].module, hit[0])
@@ -269,38 +282,59 @@ class LayoutExtractor:
             return self.aff_enc(e.args[0], c, locs, depth + 1)
         raise AnalysisError('%s: length expression %s not affine' % (c.name, norm(e)))
 
+    def return_expr(self, m: FuncInfo) -> ast.expr:
+        """The value a length property / method returns, as one expression over ``self`` attributes: the function is
+        followed path-sensitively (locals substituted, helpers inlined, accumulation loops folded into AUG terms); all
+        returning paths must agree on the term."""
+        try:
+            return _single_return(m)
+        except AnalysisError:
+            pass
+        from .sym import SymClient, empty_state
+        cl = SymClient(self.repo, m, event_of=lambda *a: None, inline=lambda fi: fi.module.name in ('pdu', 'userdataitems')
+                       and fi.name not in ('encode', 'decode'))
+        o = cl.run(empty_state())
+        terms = sorted({s_.ret for s_, _r in o.ret if s_.ret is not None})
+        if len(terms) > 1:
+            # the path on which an accumulation loop runs zero times returns the loop's initial value: it is the
+            # general term with every AUG_x(init, op, elt) replaced by init
+            import re as _re
+
+            def zero_iter(t):
+                e0 = ast.parse(t, mode='eval').body
+
+                class _Z(ast.NodeTransformer):
+                    def visit_Call(self, n):
+                        n = self.generic_visit(n)
+                        if isinstance(n.func, ast.Name) and n.func.id.startswith('AUG_') and len(n.args) == 3:
+                            return n.args[0]
+                        return n
+                return ast.unparse(_Z().visit(e0))
+            general = [t for t in terms if 'AUG_' in t]
+            if len(general) == 1 and all(t == general[0] or t == zero_iter(general[0]) for t in terms):
+                terms = general
+        if len(terms) != 1 or o.fall:
+            raise AnalysisError('%s: %s does not return one expression on all paths (%s)' % (m.loc(), m.qualname, terms[:3]))
+        try:
+            return ast.parse(terms[0], mode='eval').body
+        except SyntaxError:
+            raise AnalysisError('%s: %s returns %s' % (m.loc(), m.qualname, terms[0]))
+
     def total_length(self, c: ClassInfo) -> Optional[Affine]:
         m = c.find_method('total_length')
         if m is None:
             return None
-        ret = _single_return(m)
-        return self.aff_enc(ret, m.cls if m.kind != 'staticmethod' else c, {})
+        ret = self.return_expr(m)
+        return self.aff_enc(ret, c, {})
 
     # ------------------------------------------------------------- encoder
     def encoder(self, c: ClassInfo) -> Tuple[List[tuple], FuncInfo, Dict[str, Any]]:
+        """The encoder's return value as one expression over ``self`` attributes (locals substituted, helpers inlined by
+        the provenance client), split into its parts."""
         f = c.find_method('encode')
-        body = body_without_docstring(f.node)
-        locs: Dict[str, Any] = {}
-        ret = None
-        for st in body:
-            if isinstance(st, ast.Assign) and len(st.targets) == 1 and isinstance(st.targets[0], ast.Name):
-                # earlier plain locals are substituted into later expressions (``pack = self.format.pack``)
-                v = _subst_names(st.value, {k: x[1] for k, x in locs.items() if x[0] == 'expr'})
-                if isinstance(v, ast.Call) and isinstance(v.func, ast.Attribute) and v.func.attr == 'encode':
-                    ch = attr_chain(v.func.value)
-                    if ch and len(ch) == 2 and ch[0] == 'self':
-                        locs[st.targets[0].id] = ('text', ch[1])
-                        continue
-                locs[st.targets[0].id] = ('expr', v)
-            elif isinstance(st, ast.Return):
-                ret = _subst_names(st.value, {k: x[1] for k, x in locs.items() if x[0] == 'expr'}) if st.value is not None else None
-            elif _is_logging(st):
-                continue
-            else:
-                raise AnalysisError('%s: statement %s in encode() is not a recognised idiom' % (f.loc(st), norm(st)[:60]))
-        if ret is None:
-            raise AnalysisError('%s: encode() has no return' % f.loc())
-        return self._parts(ret, c, locs, f), f, locs
+        ret = self.return_expr(f)
+        self._cur_class = c.name
+        return self._parts(ret, c, {}, f), f, {}
 
     def _parts(self, e: ast.expr, c: ClassInfo, locs, f: FuncInfo) -> List[tuple]:
         if isinstance(e, ast.BinOp) and isinstance(e.op, ast.Add):
@@ -349,6 +383,12 @@ class LayoutExtractor:
                 ch = attr_chain(fn.value)
                 if ch and len(ch) == 2 and ch[0] == 'self':
                     return [('v', 'enc', ch[1])]
+            if isinstance(fn, ast.Attribute) and fn.attr == 'encode' and e.args and isinstance(e.args[0], ast.Constant) \
+                    and isinstance(e.args[0].value, str):
+                ch = attr_chain(fn.value)
+                if ch and len(ch) == 2 and ch[0] == 'self':
+                    self.enc_conv.setdefault(getattr(self, '_cur_class', c.name), {})[ch[1]] = norm(e)
+                    return [('v', 'enc', ch[1])]
             raise AnalysisError('%s: encode() part %s not recognised' % (f.loc(e), norm(e)[:60]))
         if isinstance(e, ast.Name) and e.id in locs:
             v = locs[e.id]
@@ -386,6 +426,13 @@ class LayoutExtractor:
     def _binding(self, a: ast.expr, c: ClassInfo, locs) -> tuple:
         if isinstance(a, ast.Constant):
             return ('const', a.value)
+        # len(self.x.encode()) / self.x.encode(): the attribute's text
+        if isinstance(a, ast.Call) and isinstance(a.func, ast.Name) and a.func.id == 'len' and len(a.args) == 1:
+            x0 = a.args[0]
+            if isinstance(x0, ast.Call) and isinstance(x0.func, ast.Attribute) and x0.func.attr == 'encode' and not x0.args:
+                ch0 = attr_chain(x0.func.value)
+                if ch0 and len(ch0) == 2 and ch0[0] == 'self':
+                    return ('len', ch0[1])
         if isinstance(a, ast.Call) and isinstance(a.func, ast.Name) and a.func.id == 'len' and len(a.args) == 1:
             x = a.args[0]
             ch = attr_chain(x)
@@ -407,10 +454,25 @@ class LayoutExtractor:
                     (name in ('pdu_length', 'item_length')):
                 return ('length', name, self.aff_enc(a, c, locs))
             return ('attr', name)
+        # a conversion of exactly one attribute (``self.x.encode()``, ``self.x.encode()[:16]``): carried by that attribute;
+        # the conversion itself is judged by the value-conversion rule
+        attrs = {n.attr for n in ast.walk(a) if isinstance(n, ast.Attribute) and isinstance(n.value, ast.Name) and n.value.id == 'self'}
+        others = {n.id for n in ast.walk(a) if isinstance(n, ast.Name) and n.id not in ('self', 'len', 'int', 'str', 'bytes')}
+        if len(attrs) == 1 and not others:
+            name = next(iter(attrs))
+            self.enc_conv.setdefault(getattr(self, '_cur_class', c.name), {})[name] = norm(a)
+            return ('attr', name)
         return ('expr', norm(a))
 
     # ------------------------------------------------------------- decoder
     def decoder(self, c: ClassInfo):
+        """Semantic extraction (layout_sem.py): the stream interpreted abstractly along decode()'s paths."""
+        from .layout_sem import SemDecoder
+        return SemDecoder(self, c).run()
+
+    def decoder_syntactic(self, c: ClassInfo):
+        """The earlier, idiom-based extraction; kept as an independent cross-check of the semantic one on shapes both
+        understand (tools/cmp_decoders.py)."""
         f = c.find_method('decode')
         body = body_without_docstring(f.node)
         elems: List[tuple] = []
